@@ -66,6 +66,15 @@ def main():
                 else:
                     proof_ok = True
             n_lemmas, lemma_names, closure_files = common.lemmas_in_closure(pid)
+    # the correspondence evaluates the executable model: every Model/*.vo must be current too
+    model_built = False
+    if ok:
+        with open(os.path.join(common.COQ, "_CoqProject")) as f:
+            mt = [ln.strip()[:-2] + ".vo" for ln in f if ln.startswith("Model/") and ln.strip().endswith(".v")]
+        mok, mout = common.coq_make(mt, jobs=16)
+        if not mok:
+            tie_broken.append(("model-build", "make Model/*.vo failed:\n%s" % mout[-2500:]))
+        model_built = mok
     forb = common.scan_forbidden()
     if forb:
         tie_broken.append(("forbidden-construct", "; ".join(forb[:10])))
@@ -75,8 +84,7 @@ def main():
     plugin = importlib.import_module("props." + pid)
     ctx = {
         "tier": args.tier, "seed": seed, "workdir": workdir, "rng": random.Random(seed * 7919 + 13),
-        "replay": args.replay, "model_ok": ok and not any(k == "proof" and "make" in d
-                                                          for k, d in tie_broken),
+        "replay": args.replay, "model_ok": ok and model_built,
         "escalate": bool(tie_broken),
     }
     try:
